@@ -167,8 +167,10 @@ PROPS = {
             {"test": "TestC07Honest", "quick": 700, "thorough": 80000, "shards_thorough": 14},
             {"test": "TestC07Byz", "quick": 1100, "thorough": 80000, "shards_thorough": 14},
             {"test": "FuzzC07Byz", "fuzz": "FuzzC07Byz", "tiers": ["thorough"], "fuzztime": 40},
+            {"test": "TestC06", "quick": 600, "thorough": 60000, "shards_thorough": 14},
         ],
-        "rule": "disc.Member instances on the simulated network under virtual time: universe of 2..8 configured members with identifiers over the "
+        "rule": "TestC06 (the orchestrator's two synchronisations in KeyGen and Sign under arbitrary node-id/party-id maps: with exactly the expected "
+                "members invoking and every frame delivered, every call completes). disc.Member instances on the simulated network under virtual time: universe of 2..8 configured members with identifiers over the "
                 "full 16-bit range (boundary-biased), honest participant subset, expected count (>= 2), 1..3 topics in parallel on one Member, probe "
                 "interval, staggered starts, schedule; TestC07Byz adds 1..2 Byzantine members = real Member puppets whose frames are rewritten "
                 "(views with added / dropped / permuted / duplicated / arbitrary ids, different lies per destination, type byte rewritten, another "
